@@ -503,7 +503,9 @@ static void iauth_xquery_check(struct iauth_request *req,
                           cli->password);
 
         srv->queries++;
-        srv->refs++;
+        /* One reference per client, however often it is asked. */
+        if (!(cli->ref_mask & (1u << ii)))
+            srv->refs++;
         if (!cli->ref_mask)
             req->soft_holds++;
         cli->ref_mask |= 1u << ii;
@@ -621,8 +623,9 @@ static void iauth_xquery_password(struct iauth_request *req,
                 log_message(iauth_xquery_log, LOG_DEBUG,
                     "adding soft hold on %s for MORE %s", routing, srv->name);
             }
+            if (!(cli->ref_mask & (1u << ii)))
+                srv->refs++;
             cli->ref_mask |= 1u << ii;
-            srv->refs++;
         }
     }
 }
